@@ -219,18 +219,44 @@ Fixpoint count_released (n k : str) (tr : list sev) : nat :=
   | _ :: tr' => count_released n k tr'
   end.
 Definition T_C06_once : Prop := ∀ cfg s n k, vreach cfg s → (count_released n k (v_trace s) ≤ 1)%nat ∧ (count_released n k (v_trace s) = 1%nat → ¬ slive s n k).
-(** holds of other sessions are untouched by a session end *)
+(** holds of other sessions are untouched by a session end: an existing hold stays live; a key of another session becomes
+    live by a step of DestroySession only when it is the key of a Lock call parked on that lock and the step is the
+    manager Unlock that hands the freed unit over (a waiter is served: intended); the lease-timer entry and the session
+    entries of (n,k) are untouched.
+    (The first version of this statement had [slive s n k ↔ slive s' n k]; its direction "live after → live before" is
+    false of the model and of the code — sessions A, B; lock n of size 1 held by A; B's Lock parked; A's connection
+    ends and DestroySession's Unlock hands the unit to B — witness [C06_frame_iff_refuted] in SvSessFrame.v.) *)
 Definition T_C06_frame : Prop := ∀ cfg s tid t sid n k,
   vreach cfg s → v_thr s !! tid = Some t → st_op t = SConnEnd sid →
   (∀ tid' t' sid' z, v_thr s !! tid' = Some t' → acquirer t' sid' n k z → sid' ≠ sid) →
   let s' := vstep cfg s (VRun tid) in
-  (slive s n k ↔ slive s' n k) ∧ v_timers s' !! tkey n k = v_timers s !! tkey n k ∧
+  (slive s n k → slive s' n k) ∧
+  (slive s' n k → slive s n k ∨
+     ∃ tid' t' sid' z lt, v_thr s !! tid' = Some t' ∧ st_op t' = SLock sid' n k z lt ∧ st_pc t' = VWait ∧ ∃ c rest, st_pc t = VDsUnlock c rest) ∧
+  v_timers s' !! tkey n k = v_timers s !! tkey n k ∧
   (∀ sid' z, entry_of s sid' (Clock n k z) ↔ entry_of s' sid' (Clock n k z)).
-(** no-clear-on-disconnect: a session end touches no hold and no lease *)
+(** no-clear-on-disconnect: a session end (every step of its DestroySession) touches no hold and no lease, and every
+    session entry that lists a hold stays as it is — only an EMPTY session entry is deleted (DestroySessionIfEmpty is
+    one critical section) *)
 Definition T_C06_noclear : Prop := ∀ cfg s tid t sid,
-  sc_noclear cfg = true → v_thr s !! tid = Some t → st_op t = SConnEnd sid →
+  vreach cfg s → sc_noclear cfg = true → v_thr s !! tid = Some t → st_op t = SConnEnd sid →
   let s' := vstep cfg s (VRun tid) in
-  v_locks s' = v_locks s ∧ v_timers s' = v_timers s ∧ v_theap s' = v_theap s ∧ (∀ sid' c, entry_of s sid' c → entry_of s' sid' c).
+  v_locks s' = v_locks s ∧ v_timers s' = v_timers s ∧ v_theap s' = v_theap s ∧ (∀ sid' c, entry_of s sid' c → entry_of s' sid' c) ∧
+  (∀ sid' l, v_sess s !! sid' = Some l → l ≠ [] → v_sess s' !! sid' = Some l).
+(** ... and a hold whose bookkeeping is done (AddLock has run) stays listed under its session until its own Unlock or its own
+    expiry ends it, whatever session ends happen in between (no entry is lost between DestroySession's check and its delete) *)
+Definition T_C06_noclear_listed : Prop := ∀ cfg s tid t sid n k z,
+  vreach cfg s → sc_noclear cfg = true →
+  v_thr s !! tid = Some t → acquirer t sid n k z → st_pc t = VTmAdd ∨ st_pc t = VFin (SResp true None) →
+  (∀ tid' t', v_thr s !! tid' = Some t' → st_op t' ≠ SUnlock n k) →
+  (∀ tid' t' id tm, v_thr s !! tid' = Some t' → st_op t' = SExpire id → v_theap s !! id = Some tm → tm_k tm ≠ k) →
+  entry_of s sid (Clock n k z).
+(** the finding F-LEAK (known, not repaired): with clearing, a grant whose AddLock lands after DestroySession has deleted the
+    session stays live and listed for ever — the case [add_after_destroy] excludes from [T_C06_release_all] *)
+Definition T_C06_leak_refuted : Prop := ∃ cfg s tid t sid tid' t' n k z,
+  vreach cfg s ∧ sc_noclear cfg = false ∧ v_mgrshut s = false ∧ v_thr s !! tid = Some t ∧ st_op t = SConnEnd sid ∧ st_pc t = VEnd ∧
+  v_thr s !! tid' = Some t' ∧ acquirer t' sid n k z ∧ st_pc t' = VFin (SResp true None) ∧ slive s n k ∧ ¬ expiry_pending s n k ∧
+  add_after_destroy sid (v_trace s) = true.
 (** in-flight requests cannot crash the server: no reachable state is crashed *)
 Definition T_C06_no_crash : Prop := ∀ cfg s, vreach cfg s → v_crashed s = false.
 
